@@ -590,6 +590,16 @@ def free_vars(fn):
         else:
             raise ValueError(e)
 
+    def block(stmts, extra=()):
+        """names declared inside a block are gone when it ends: what follows means the outer variable again"""
+        nonlocal bound
+        saved = set(bound)
+        for n in extra:
+            bound.add(n)
+        for x in stmts:
+            st(x)
+        bound = saved
+
     def st(s):
         k = s[0]
         if k == "decl":
@@ -606,26 +616,20 @@ def free_vars(fn):
                 ex(s[1])
         elif k == "if":
             ex(s[1])
-            for x in s[2]:
-                st(x)
+            block(s[2])
             e = s[3]
             if isinstance(e, tuple) and e and e[0] == "if":
                 st(e)
             elif e:
-                for x in e:
-                    st(x)
+                block(e)
         elif k == "while":
             ex(s[1])
-            for x in s[2]:
-                st(x)
+            block(s[2])
         elif k == "from":
             ex(s[1]); ex(s[2])
             if s[4] is not None:
                 ex(s[4])
-            if s[5] is not None:
-                bound.add(s[5])
-            for x in s[6]:
-                st(x)
+            block(s[6], [s[5]] if s[5] is not None else [])
         elif k == "opassign":
             ex(s[1]); ex(s[3])
         elif k == "seti":
